@@ -763,6 +763,11 @@ def _calendar_routes():
         for ep in IslamicEpoch:
             cid = CalendarSystem.get_islamic_calendar(pat, ep).id
             routes.append((cid, "islamic:%s:%s" % (pat.name, ep.name), lambda pat=pat, ep=ep: CalendarSystem.get_islamic_calendar(pat, ep)))
+            try:
+                CalendarSystem.get_islamic_calendar(int(pat), int(ep))
+                routes.append((cid, "islamic-int:%d:%d" % (int(pat), int(ep)), lambda pat=pat, ep=ep: CalendarSystem.get_islamic_calendar(int(pat), int(ep))))
+            except (TypeError, ValueError):
+                pass
     return routes
 
 
